@@ -81,6 +81,15 @@ func (g *G[T]) Other(x int) int { return g.K*100 + x + 32 }
 //go:noinline
 func (g G[T]) ValId(x int) int { return g.K*100 + x + 33 }
 
+// unexported generic methods; weight's first call goes to its sibling scale (both are addressed by their GC-shape symbol,
+// e.g. "(*G[go.shape.string]).weight")
+//
+//go:noinline
+func (g *G[T]) weight(x int) int { return g.scale(x) + 20 }
+
+//go:noinline
+func (g *G[T]) scale(x int) int { return g.K*100 + x + 14 }
+
 // Call runs method number m of the instance family with receiver key k and argument x (never patched itself:
 // it is one big switch, far longer than a prologue, and only ever CALLS the methods).
 //
@@ -141,6 +150,12 @@ func Call(m int, k int, x int) int {
 		return (&A{K: k}).getf(x)
 	case 26:
 		return (&A{K: k}).Getf(x)
+	case 27:
+		return (&G[string]{K: k}).weight(x)
+	case 28:
+		return (&G[string]{K: k}).scale(x)
+	case 29:
+		return (&G[int]{K: k}).weight(x)
 	}
 	return -1
 }
@@ -149,10 +164,10 @@ func Call(m int, k int, x int) int {
 var Names = []string{"(*A).Get", "(*A).GetMore", "(*A).G", "(*A).get", "(*A).getMore", "A.Val", "A.ValMore", "A.val",
 	"(*B).Get", "B.Val", "(*B).get", "(*c).Run", "(*c).run", "c.RunVal",
 	"(*G[int]).Id", "(*G[MyInt]).Id", "(*G[string]).Id", "(*G[*A]).Id", "(*G[*B]).Id", "(*G[int]).Other", "(*G[string]).Other", "A.Val via pointer",
-	"G[int].ValId", "G[string].ValId", "G[MyInt].ValId", "(*A).getf", "(*A).Getf"}
+	"G[int].ValId", "G[string].ValId", "G[MyInt].ValId", "(*A).getf", "(*A).Getf", "(*G[string]).weight", "(*G[string]).scale", "(*G[int]).weight"}
 
 // Consts are the additive constants of the originals.
-var Consts = []int{1, 2, 3, 4, 5, 6, 7, 8, 11, 12, 13, 21, 22, 23, 31, 31, 31, 31, 31, 32, 32, 6, 33, 33, 33, 41, 42}
+var Consts = []int{1, 2, 3, 4, 5, 6, 7, 8, 11, 12, 13, 21, 22, 23, 31, 31, 31, 31, 31, 32, 32, 6, 33, 33, 33, 41, 42, 34, 14, 34}
 
 // NewC returns an instance of the unexported type (for type-directed APIs).
 func NewC(k int) interface{} { return &c{K: k} }
